@@ -19,6 +19,7 @@ Oracle reproductions on the real code: `o_heat.robin_nan`, `o_heat.rod_boundary`
 -/
 import EPV.Lemmas.HeatSeries
 import EPV.Gen.RodModesGen
+import EPV.Lemmas.Bridge.RodModesGen
 import EPV.Tactics
 
 set_option linter.all false
@@ -35,7 +36,9 @@ theorem finding_robin_zero_root (q : RodModesGen.P) (hα : q.alpha1 ≠ 0) (hn :
     RodModesGen.residual { q with mu := 0 } = 0 ∧ RodModesGen.leaf { q with mu := 0 } = 2
       ∧ ¬ RodModesGen.L2.WellDefined { q with mu := 0 } := by
   refine ⟨?_, ?_, ?_⟩
-  · simp [epv_tree, epv_cond, hα, hn, RodModesGen.L2.residual]
+  · -- through the bridge (no leaf number, no shape of the traced residual): tan 0 - (…) * 0 / (…) = 0
+    rw [Bridge.rodModesGen_residual_ne { q with mu := 0 } hα hn]
+    simp
   · simp [epv_tree, epv_cond, hα, hn]
   · unfold RodModesGen.L2.WellDefined
     simp
